@@ -61,7 +61,17 @@ def _initialize_window_functions():
 
         if not ("M" in sig.parameters and "sym" in sig.parameters):
             continue
-        elif len(sig.parameters) > 2:
+        elif any(
+            (
+                param.default is param.empty
+                or param.kind is not param.KEYWORD_ONLY
+                for key, param in sig.parameters.items()
+                if key not in ("M", "sym")
+            )
+        ):
+            # Only optional keyword-only parameters (e.g., the array namespace
+            # and device parameters added in newer versions of SciPy) may be
+            # present in addition to M and sym.
             continue
 
         _WINDOW_FUNCTIONS[name] = func
